@@ -153,7 +153,7 @@ def brentsroot(f, bounds, tol=None, verbose=False, return_interval=False):
         numiter += 1
         d = c
 
-        if fa * fs < 0:
+        if D.ar_numpy.sign(fa) * D.ar_numpy.sign(fs) < 0:
             b = s
             fb = fs
         else:
@@ -294,7 +294,7 @@ def brentsrootvec(f, bounds, tol=None, verbose=False, return_interval=False, acc
         numiter[conv] = numiter[conv] + 1
         d = c
 
-        mask = fa * fs < 0
+        mask = D.ar_numpy.sign(fa) * D.ar_numpy.sign(fs) < 0
         mask[not_conv] = False
         b[mask] = s[mask]
         fb[mask] = fs[mask]
